@@ -1061,7 +1061,14 @@ func opUnStake(pc *uint64, interpreter *EVMInterpreter, callContext *callCtx) ([
 				refundInfo.AddRefundInfo(addr, remain)
 			}
 
-			refundInfo.AddRefundInfo(source.Bytes(), money)
+			// only what left the stake record is paid out: the stake moves in whole tokens (a
+			// fraction of the requested amount stays staked) and "everything" is the miner's stake
+			if money.Cmp(realMoney) > 0 {
+				money = realMoney
+			}
+			if money.Sign() > 0 {
+				refundInfo.AddRefundInfo(source.Bytes(), money)
+			}
 
 			data := make(map[uint64]types.RefundInfoList)
 			data[refundHeight] = refundInfo
